@@ -330,6 +330,12 @@ def stepLine (d : DState) (line : String) : DState × String :=
           let tag := tags.head? <|> d.lastTag
           let flag := if dev then "\t#F:" ++ d.pid ++ "-" ++ (match tag with | some t => tagId t | none => "unattributed") else ""
           ({ d with s := s', lastTag := (tags.head? <|> d.lastTag) }, "ok" ++ flag)
+      else if verb == "compact" then
+        -- CompactSwamp: refuses a swamp that does not exist, otherwise summons it and rewrites its
+        -- file; no record, stamp or pending write changes
+        if d.s.dead then (d, "skip")
+        else if Model.exists_ d.s then ({ d with s := Model.withLive d.s (Model.summon d.s) }, "compact ok")
+        else (d, "err:FailedPrecondition")
       else stepReq d f
     | _ => stepReq d f
 
